@@ -22,7 +22,8 @@
      22 output[col] out of range   23 a fixed-size register array with another shape
         (22 and 23 cannot happen; they stand where a default value would otherwise hide a bound) *)
 From Coq Require Import List Arith Bool NArith ZArith.
-From LMBase Require Import Res.
+From Flocq Require Import BinarySingleNaN.
+From LMBase Require Import Res IEEE.
 Import ListNotations.
 
 (* ---------- small vector toolkit (SIMD registers are lists of lanes) ---------- *)
@@ -339,6 +340,10 @@ Section Maxi.
   Definition check_threshold (m : matrix) (t : T) (sorted : list coord) : bool :=
     coords_eqb sorted (threshold_generic m t).
 
+  (* every cell whose column-major index is in V .. n-1 satisfies [is_ninf] *)
+  Definition check_padding (is_ninf : T -> bool) (m : matrix) (V n : nat) : bool :=
+    forallb (fun i => match index_usize m i with Ok x => is_ninf x | _ => false end) (seq V (n - V)).
+
 End Maxi.
 
 (* ---------- AVX2, u8 (avx2.rs): cells are integers 0..255 ---------- *)
@@ -443,4 +448,24 @@ Section Score.
   (* score = 0.0; for j: score += pssm[j][..] *)
   Definition score_def (pssm : list (list T)) (s : list nat) (i : nat) : T :=
     fold_left add (terms pssm s i) zero.
+
+  (* hypothesis of the padding claim, executable: the running sum and the terms are
+     "ordinary" ([okv]: neither NaN nor +inf) all along *)
+  Variable okv : T -> bool.
+  Fixpoint prefix_ok (acc : T) (l : list T) : bool :=
+    okv acc && match l with
+               | [] => true
+               | x :: r => okv x && prefix_ok (add acc x) r
+               end.
+  Definition terms_ok (pssm : list (list T)) (s : list nat) (i : nat) : bool :=
+    prefix_ok zero (terms pssm s i).
 End Score.
+
+(* binary32: neither NaN nor +inf / exactly -inf *)
+Definition f32_okv (x : IEEE.F32.t) : bool :=
+  match x with
+  | BinarySingleNaN.B754_nan => false
+  | BinarySingleNaN.B754_infinity false => false
+  | _ => true
+  end.
+Definition f32_is_ninf (x : IEEE.F32.t) : bool := IEEE.F32.is_neg_inf x.
